@@ -511,6 +511,7 @@ class StarSet(object):
         # now to sort our set of vectors (easiest by magnitude, and then reduce down:
         self.states += sorted([s for s in newstateset], key=PairState.sortkey)
         Nnew = len(self.states)
+        if Nnew == Nold: return self  # confined network: the extra jumps reach nothing new
         x2_indices = []
         x2old = np.dot(self.states[Nold].dx, self.states[Nold].dx)
         for i in range(Nold, Nnew):
